@@ -69,16 +69,8 @@ def check(ctx):
     ctx.rule('C18.W', 'AnyId selects the hashed map')
     seen = set()
     for tu in ctx.tus:
-        def is_anyid_op(f, name):
-            return f.skey == name and f.file.endswith('anyid.h') and f.params and 'AnyId' in tu.tstr(f.params[0]['t'])
-        eqs = [f for f in tu.fns if is_anyid_op(f, 'operator==')]
-        lts = [f for f in tu.fns if is_anyid_op(f, 'operator<')]
-        for eqf in eqs:
-            storage = tu.tstr(eqf.params[0]['t'])
-            ltf = [g for g in lts if tu.tstr(g.params[0]['t']) == storage]
-            if not ltf:
-                continue
-            check_pair(ctx, tu, eqf, ltf[0], storage)
+        for eqf, ltf, storage in anyid_pairs(tu):
+            check_pair(ctx, tu, eqf, ltf, storage)
             seen.add(storage)
         for f in tu.fns:
             if f.skey.startswith('std::hash::operator()') and 'AnyId' in f.q:
@@ -102,7 +94,19 @@ def check(ctx):
     witness.check_static_unit(ctx, 'C18.W', os.path.join(extract.VERIF, 'witness', 's_select.cpp'), 'AnyId is hashable and selects unordered_map')
 
 
-def check_pair(ctx, tu, eqf, ltf, storage):
+def anyid_pairs(tu):
+    def is_anyid_op(f, name):
+        return f.skey == name and f.file.endswith('anyid.h') and f.params and 'AnyId' in tu.tstr(f.params[0]['t'])
+    eqs = [f for f in tu.fns if is_anyid_op(f, 'operator==')]
+    lts = [f for f in tu.fns if is_anyid_op(f, 'operator<')]
+    for eqf in eqs:
+        storage = tu.tstr(eqf.params[0]['t'])
+        ltf = [g for g in lts if tu.tstr(g.params[0]['t']) == storage]
+        if ltf:
+            yield eqf, ltf[0], storage
+
+
+def check_pair(ctx, tu, eqf, ltf, storage, rule='C18.L', only=None):
     try:
         feq = F.formula(eqf)
         flt = F.formula(ltf)
@@ -152,7 +156,9 @@ def check_pair(ctx, tu, eqf, ltf, storage):
     names += ['equal digests with different values are distinct ids', 'equal digests and equal values are equal ids'] if uses_value else \
         ['without value storage ids are equal exactly when digests are']
     for nm in names:
-        ctx.ob('C18.L', eqf if '==' in nm and '<' not in nm else ltf, '%s (%s storage; %d orderings)' % (nm, 'comparable value' if uses_value else 'empty', ncases),
+        if only is not None and nm not in only:
+            continue
+        ctx.ob(rule, eqf if '==' in nm and '<' not in nm else ltf, '%s (%s storage; %d orderings)' % (nm, 'comparable value' if uses_value else 'empty', ncases),
                nm not in fails,
                detail='== is %s ; < is %s ; fails for %s' % (F.show(feq), F.show(flt), fails.get(nm)),
                key_detail='%s [%s]' % (nm, 'value' if uses_value else 'empty'))
